@@ -316,6 +316,11 @@ pub fn run(ctx: &Ctx, rep: &mut Report) {
                 }
                 _ => {
                     let d = *rng.pick(&[0u32, 1, 2, 16, 17, 100, 100, 17, 5_000, 1_300_000, crate::univ::EON]);
+                    // sometimes the token is also upgraded to the same code and migrated
+                    if rng.chance(1, 4) && u.upgrade_and_migrate(&tok).is_ok() {
+                        rep.step("the token is upgraded to the same code and migrated".into());
+                        rep.count("upgrade-and-migrate");
+                    }
                     if d > 100 {
                         u.advance(d);
                     } else {
